@@ -93,7 +93,8 @@ def rf_configs(draw, spf_cap=4096, boundary_p=0.6, force=None):
     cfg = {
         "kind": kind, "size": size, "order": order, "cplx": cplx, "form": form, "nsub": nsub,
         "n": n, "d": d, "F": F, "S": S, "cont": cont, "comp": comp, "checksum": checksum,
-        "salt": draw(st.integers(0, (1 << 32) - 1)), "uuid": "verif",
+        # bits 40-42: value mode (mostly pseudo-random; sometimes all zeros, a constant, the fill pattern itself, a ramp)
+        "salt": draw(st.integers(0, (1 << 32) - 1)) | (draw(st.sampled_from([0, 0, 0, 0, 0, 0, 1, 2, 3, 4])) << 40), "uuid": "verif",
     }
     if _spf(n, d, F) > 8192:
         # very large files: keep one narrow real subchannel so that a case stays below a few MB
